@@ -416,7 +416,11 @@ func pC07(c *aCase, next func(e *aEnv) []aOp) (info pInfo, err error) {
 			return info, fmt.Errorf("on the restarted instance: %s\n--- history ---\n%s", msg, hist)
 		}
 		vAofIdle(inst2.slock.aof)
-		vWaitRewrite(inst2.slock.aof)
+		if c.RewriteSize > 0 {
+			vWaitRewriteRotations() // a size-triggered rotation starts a compaction goroutine: the directory is copied when it is done
+		} else {
+			vWaitRewrite(inst2.slock.aof)
+		}
 		vAofIdle(inst2.slock.aof)
 		s2b := pSnapshot(inst2.slock)
 		_ = ap.Close()
